@@ -41,7 +41,10 @@ def check_range(start, end, only=None):
     from qstrader.simulation.daily_bday import DailyBusinessDaySimulationEngine
     fails = []
     n = 0
-    clock = [e.ts for e in DailyBusinessDaySimulationEngine(start, end, pre_market=False, post_market=False)]
+    eng = DailyBusinessDaySimulationEngine(start, end, pre_market=False, post_market=False)
+    for _e in eng:           # a first look at the clock that is abandoned after one event (a user peeking at the first
+        break                # timestamp); the full pass that follows must still hold every event
+    clock = [e.ts for e in eng]
     for name, thunk, want, align in schedules(start, end):
         if only is not None and name != only:
             continue
